@@ -32,7 +32,7 @@ def rough_ok(recon):
     return recon == "extrapol1" or recon.startswith("muscl")
 
 
-def random_prim(kind, rnd, n, smooth=False, strength=1.0, mild=False):
+def random_prim(kind, rnd, n, smooth=False, strength=1.0, mild=False, nonrest=False):
     """admissible primitive data (list of arrays); mild: small-amplitude smooth data for unlimited high-order schemes"""
     if mild:
         x = np.linspace(0, 1, n, endpoint=False)
@@ -42,9 +42,10 @@ def random_prim(kind, rnd, n, smooth=False, strength=1.0, mild=False):
             return [w(0.0, 1.0)]
         if kind == "burgers":
             return [rnd.choice([1.0, -1.0]) * w(1.0, 0.3)]
+        centres = [0.5, -2.0] if nonrest else [0.0, 0.5, -2.0]
         if kind == "shallowwater":
-            return [w(1.0, 0.1), w(rnd.choice([0.0, 0.5, -2.0]), 0.1)]
-        return [w(1.0, 0.1), w(rnd.choice([0.0, 0.5, -2.0]), 0.1), w(1.0, 0.1)]
+            return [w(1.0, 0.1), w(rnd.choice(centres), 0.1)]
+        return [w(1.0, 0.1), w(rnd.choice(centres), 0.1), w(1.0, 0.1)]
     x = np.linspace(0, 1, n, endpoint=False)
     ph = rnd.uniform(0, 6.28)
 
@@ -73,8 +74,13 @@ def field_from_prim(model, m, prim):
 
 def max_ulps(a, b, scale, bits=52):
     a, b = np.asarray(a, dtype=float).ravel(), np.asarray(b, dtype=float).ravel()
-    if a.shape != b.shape or not (np.all(np.isfinite(a)) and np.all(np.isfinite(b))):
+    if a.shape != b.shape:
         return core.ULP_CAP
+    na, nb = ~np.isfinite(a), ~np.isfinite(b)
+    if np.any(na != nb):
+        return core.ULP_CAP            # one run blew up where the other did not
+    a, b = a[~na], b[~nb]              # both runs blew up at the same places: the relation holds (such runs are unstable
+    #                                    scheme combinations, e.g. the centered flux; positivity / finiteness is C10's business)
     d = float(np.max(np.abs(a - b))) if a.size else 0.0
     return core.ulps(d, 0.0, scale, bits) if d > 0 else 0
 
@@ -87,7 +93,7 @@ def solver_tok(u40):
 
 def tok(**kw):
     r = dict(kind="tok", cons=0, perflux=0, wall=0, unif=0, const=0, linear=0, shift=0, mirror=0, solve=0, implicit=0,
-             scaling=0, unifsolve=0)
+             scaling=0, unifsolve=0, scalero=0)
     r.update(kw)
     return r
 
@@ -236,7 +242,7 @@ def shift_solve_cases_1d(rnd, tier):
         cfl = 0.3 if not implicit else (rnd.choice([0.5, 5.0]) if kind == "convection" else 0.5)
         try:
             disc = fd.modeldisc.fvm(model, m, fd.recon(recon), numflux=flux)
-            prim = random_prim(kind, rnd, n, mild=(not rough_ok(recon)) or implicit)
+            prim = random_prim(kind, rnd, n, mild=(not rough_ok(recon)) or implicit, nonrest=implicit)
             f0 = field_from_prim(model, m, prim)
             f0k = field_from_prim(model, m, [np.roll(p, k) for p in prim])
             a = integrate(cls, m, disc, f0, cfl, 4)
@@ -569,4 +575,255 @@ def rows2d_cases(rnd, tier):
                              bc=kindbc + "/" + side["type"], along="x" if along_x else "y"))
         except Exception as ex:
             recs.append(O.raised_record(ex, nx=nx, ny=ny, flux=flux, recon=str(recon), bc=kindbc))
+    return recs
+
+
+# ----------------------------------------------------------------------------- C13: reflection and change of units (1D)
+EULER_BCS_SUB_IN = ["insub", "insub_cbc", "dirichlet"]
+EULER_BCS_SUB_OUT = ["outsub", "outsub_prim", "outsub_qtot", "outsub_rh", "outsub_nrcbc", "dirichlet"]
+
+
+def euler_bc(name, gam, state, side_dir):
+    """parameter dictionary of an Euler boundary condition around a reference state (rho, u, p) for the flow direction given"""
+    rho, u, p = state
+    a2 = gam * p / rho
+    m2 = u * u / a2
+    fm = 1.0 + 0.5 * (gam - 1.0) * m2
+    ptot, rttot = p * fm ** (gam / (gam - 1.0)), p / rho * fm
+    if name in ("insub", "insub_cbc"):
+        return {"type": name, "ptot": ptot * 1.05, "rttot": rttot * 1.02}
+    if name == "insup":
+        return {"type": name, "ptot": ptot, "rttot": rttot, "p": p}
+    if name.startswith("outsub"):
+        return {"type": name, "p": p * 0.97}
+    if name == "dirichlet":
+        return {"type": "dirichlet", "prim": [rho, u, p]}
+    return {"type": name}
+
+
+def mirror_bc(b):
+    b = dict(b)
+    if b.get("type") == "dirichlet" and len(b["prim"]) == 3:
+        b["prim"] = [b["prim"][0], -b["prim"][1], b["prim"][2]]
+    elif b.get("type") == "dirichlet" and len(b["prim"]) == 2:
+        b["prim"] = [b["prim"][0], -b["prim"][1]]
+    return b
+
+
+def problem_1d(rnd, kind, implicit=False, uniform=False):
+    """a random admissible 1D problem: dict(model kw, mesh faces, recon, flux, bcL, bcR, prim)"""
+    n = rnd.choice([2, 3, 5, 8, 13])
+    if uniform:
+        xf = np.linspace(0.0, rnd.choice([1.0, 2.0]), n + 1)
+    else:
+        w = np.array([rnd.choice([0.25, 0.5, 1.0, 0.75, 0.1]) for _ in range(n)])
+        xf = np.concatenate([[0.0], np.cumsum(w)]) + rnd.choice([0.0, -1.5])
+    recon = rnd.choice(fd.ALL_RECONS if not implicit else fd.LINEAR_RECONS + ["muscl_vanalbada"])
+    flux = rnd.choice(FLUXES[kind])
+    P = dict(kind=kind, xf=xf, recon=recon, flux=flux, n=n)
+    mild = not rough_ok(recon) or implicit
+    if kind == "convection":
+        P["mkw"] = dict(a=rnd.choice([1.0, -1.0, 2.5, -0.3]))
+        P["prim"] = random_prim(kind, rnd, n, mild=mild)
+        bcs = [({"type": "per"}, {"type": "per"}), ({"type": "dirichlet", "prim": [0.5]}, {"type": "dirichlet", "prim": [-1.0]})]
+    elif kind == "burgers":
+        P["mkw"] = {}
+        P["prim"] = random_prim(kind, rnd, n, mild=mild)
+        bcs = [({"type": "per"}, {"type": "per"}), ({"type": "dirichlet", "prim": [1.0]}, {"type": "dirichlet", "prim": [0.5]})]
+    elif kind == "shallowwater":
+        P["mkw"] = dict(g=rnd.choice([9.81, 1.0, 8.0]))
+        P["prim"] = random_prim(kind, rnd, n, mild=mild, nonrest=implicit)
+        bcs = [({"type": "per"}, {"type": "per"}), ({"type": "sym"}, {"type": "sym"}), ({"type": "inf"}, {"type": "sym"}),
+               ({"type": "dirichlet", "prim": [1.0, 0.3]}, {"type": "inf"})]
+        if implicit:     # a component with a vanishing mean makes the finite-difference Jacobian noisy (eps ~ mean|q|): no rest states
+            bcs = [({"type": "per"}, {"type": "per"}), ({"type": "dirichlet", "prim": [1.0, 0.5]}, {"type": "inf"})]
+    else:
+        gam = rnd.choice([1.4, 5.0 / 3.0])
+        P["mkw"] = dict(gamma=gam)
+        regime = rnd.choice(["per", "wall", "sub", "sup"] if not implicit else ["per", "sub", "sup"])
+        x = np.linspace(0, 1, n, endpoint=False)
+        amp = 0.05 if mild else 0.3
+        rho = 1.0 + amp * np.array([rnd.uniform(-1, 1) for _ in range(n)])
+        p = 1.0 + amp * np.array([rnd.uniform(-1, 1) for _ in range(n)])
+        s = rnd.choice([1.0, -1.0])
+        if regime in ("sub", "mixed"):
+            u = s * (0.5 + amp * np.array([rnd.uniform(-1, 1) for _ in range(n)]))
+        elif regime == "sup":
+            u = s * (2.5 + amp * np.array([rnd.uniform(-1, 1) for _ in range(n)]))
+        else:
+            u = amp * np.array([rnd.uniform(-1, 1) for _ in range(n)]) + \
+                (rnd.choice([0.0, 0.4, -1.7] if not implicit else [0.4, -1.7]) if regime == "per" else 0.0)
+        P["prim"] = [rho, u, p]
+        ref = (1.0, float(np.mean(u)), 1.0)
+        if regime == "per":
+            bcs = [({"type": "per"}, {"type": "per"})]
+        elif regime == "wall":
+            bcs = [({"type": "sym"}, {"type": "sym"})]
+        elif regime == "sup":
+            bi, bo = euler_bc("insup", gam, ref, 0), {"type": "outsup"}
+            bcs = [(bi, bo) if s > 0 else (bo, bi)]
+        else:
+            bi = euler_bc(rnd.choice(EULER_BCS_SUB_IN), gam, ref, 0)
+            bo = euler_bc(rnd.choice(EULER_BCS_SUB_OUT), gam, ref, 0)
+            bcs = [(bi, bo) if s > 0 else (bo, bi)]
+    P["bcL"], P["bcR"] = rnd.choice(bcs)
+    return P
+
+
+def build(P, mirror=False, scale=None):
+    """real objects of problem P (optionally of its mirror image / of the problem in other units)"""
+    kind = P["kind"]
+    mkw = dict(P["mkw"])
+    xf = np.array(P["xf"], dtype=float)
+    prim = [np.array(p, dtype=float) for p in P["prim"]]
+    bcL, bcR = dict(P["bcL"]), dict(P["bcR"])
+    if mirror:
+        xf = -xf[::-1]
+        prim = [p[::-1].copy() for p in prim]
+        if kind == "convection":
+            mkw["a"] = -mkw["a"]
+        elif kind == "burgers":
+            prim[0] = -prim[0]
+        else:
+            prim[1] = -prim[1]
+        bcL, bcR = mirror_bc(P["bcR"]), mirror_bc(P["bcL"])
+        if kind == "burgers":
+            for b in (bcL, bcR):
+                if b["type"] == "dirichlet":
+                    b["prim"] = [-b["prim"][0]]
+    if scale is not None:
+        a, b, l = scale         # density (or height / scalar) unit, velocity unit, length unit
+        xf = xf * l
+        if kind == "convection":
+            mkw["a"] = mkw["a"] * b
+            prim[0] = prim[0] * a
+        elif kind == "burgers":
+            prim[0] = prim[0] * b
+        elif kind == "shallowwater":
+            mkw["g"] = mkw["g"] * b * b / a
+            prim = [prim[0] * a, prim[1] * b]
+        else:
+            prim = [prim[0] * a, prim[1] * b, prim[2] * a * b * b]
+
+        def sbc(bb):
+            bb = dict(bb)
+            if bb["type"] == "dirichlet":
+                pr = bb["prim"]
+                if kind == "convection":
+                    bb["prim"] = [pr[0] * a]
+                elif kind == "burgers":
+                    bb["prim"] = [pr[0] * b]
+                elif kind == "shallowwater":
+                    bb["prim"] = [pr[0] * a, pr[1] * b]
+                else:
+                    bb["prim"] = [pr[0] * a, pr[1] * b, pr[2] * a * b * b]
+            for key, fac in (("ptot", a * b * b), ("p", a * b * b), ("rttot", b * b)):
+                if key in bb:
+                    bb[key] = bb[key] * fac
+            return bb
+        bcL, bcR = sbc(bcL), sbc(bcR)
+    model = make_model(kind, random.Random(0), **mkw)
+    m = fd.mesh_from_faces(xf)
+    disc = fd.modeldisc.fvm(model, m, fd.recon(P["recon"]), numflux=P["flux"], bcL=bcL, bcR=bcR)
+    f = field_from_prim(model, m, prim)
+    return model, m, disc, f
+
+
+def parity(kind):
+    return {"convection": [1], "burgers": [-1], "shallowwater": [1, -1]}.get(kind, [1, -1, 1])
+
+
+def mirror_cases(rnd, tier):
+    recs = []
+    ncase = 80 if tier == "quick" else 1200
+    kinds = list(FLUXES)
+    for c in range(ncase):
+        kind = kinds[c % len(kinds)]
+        cls = rnd.choice(EXPLICIT + IMPLICIT) if c % 4 else "implicit"
+        implicit = cls in IMPLICIT
+        P = problem_1d(rnd, kind, implicit=implicit)
+        try:
+            model, m, disc, f = build(P)
+            modelm, mm, discm, fm_ = build(P, mirror=True)
+            with np.errstate(all="ignore"):
+                R = [np.array(r) for r in disc.rhs(f)]
+                Rm = [np.array(r) for r in discm.rhs(fm_)]
+            par = parity(kind)
+            worst = 0
+            h = float(np.min(m.vol()))
+            for q in range(model.neq):
+                scr = max(float(np.max(np.abs(R[q]))), float(np.max(np.abs(f.data[q]))) / h * 3.0) + 1e-300
+                worst = max(worst, max_ulps(par[q] * Rm[q][::-1], R[q], scr))
+            cfl = 0.3 if not implicit else 0.5
+            nit = rnd.choice([1, 3, 6])
+            a = integrate(cls, m, disc, f, cfl, nit)
+            b = integrate(cls, mm, discm, fm_, cfl, nit)
+            for q in range(model.neq):
+                sc = max(float(np.max(np.abs(a.data[q]))), float(np.max(np.abs(f.data[q])))) + 1e-300
+                if implicit:
+                    u = solver_tok(max_ulps(par[q] * b.data[q][::-1], a.data[q], sc, core.SOLVER_BITS))
+                else:
+                    u = max_ulps(par[q] * b.data[q][::-1], a.data[q], sc)
+                worst = max(worst, u)
+            if implicit:    # the step size follows the solution, which carries the solver noise
+                worst = max(worst, solver_tok(core.ulps(a.time, b.time, max(a.time, 1e-300), core.SOLVER_BITS)))
+            else:
+                worst = max(worst, core.ulps(a.time, b.time, max(a.time, 1e-300)) if np.isfinite(a.time + b.time) else
+                            (0 if (np.isnan(a.time) and np.isnan(b.time)) else core.ULP_CAP))
+            recs.append(tok(mirror=worst, model=kind, flux=str(P["flux"]), recon=P["recon"], n=P["n"], integrator=cls,
+                            bcl=P["bcL"]["type"], bcr=P["bcR"]["type"]))
+        except Exception as ex:
+            recs.append(O.raised_record(ex, model=kind, flux=str(P["flux"]), recon=P["recon"], n=P["n"], integrator=cls,
+                                        bcl=P["bcL"]["type"], bcr=P["bcR"]["type"]))
+    return recs
+
+
+def scaling_cases(rnd, tier):
+    """power-of-two change of units: the solution is rescaled bit for bit (explicit integrators)"""
+    recs = []
+    ncase = 80 if tier == "quick" else 1200
+    kinds = list(FLUXES)
+    for c in range(ncase):
+        kind = kinds[c % len(kinds)]
+        cls = rnd.choice(EXPLICIT)
+        P = problem_1d(rnd, kind)
+        if P["recon"] in ("muscl_vanalbada", "muscl_vanleer"):
+            # the smooth limiters carry the dimensional constants 1e-20 / 1e-40: bitwise only while slopes^2 stay far above them
+            sc = (2.0 ** rnd.randint(-3, 3), 2.0 ** rnd.randint(-3, 3), 2.0 ** rnd.randint(-3, 3))
+        else:
+            sc = (2.0 ** rnd.randint(-30, 30), 2.0 ** rnd.randint(-20, 20), 2.0 ** rnd.randint(-20, 20))
+        a_, b_, l_ = sc
+        try:
+            model, m, disc, f = build(P)
+            models, ms, discs, fs = build(P, scale=sc)
+            nit = rnd.choice([1, 4])
+            with np.errstate(all="ignore"):
+                A = integrate(cls, m, disc, f, 0.3, nit)
+                B = integrate(cls, ms, discs, fs, 0.3, nit)
+            if kind == "convection":
+                facs = [a_]
+            elif kind == "burgers":
+                facs = [b_]
+            elif kind == "shallowwater":
+                facs = [a_, a_ * b_]
+            else:
+                facs = [a_, a_ * b_, a_ * b_ * b_]
+            bad = 0
+            ro = 0
+            smooth = P["recon"] in ("muscl_vanalbada", "muscl_vanleer")
+            for q in range(model.neq):
+                x, y = A.data[q] * facs[q], B.data[q]
+                if smooth:      # homogeneous only up to the relative 1e-20/slope^2 the property states (C12): round-off clause
+                    ro = max(ro, max_ulps(x, y, float(np.max(np.abs(x))) + 1e-300))
+                else:
+                    bad += int(np.sum(~((x == y) | (np.isnan(x) & np.isnan(y)))))
+            if smooth:
+                ro = max(ro, core.ulps(A.time * (l_ / b_), B.time, max(B.time, 1e-300)))
+            elif not (A.time * (l_ / b_) == B.time):
+                bad += 1
+            finite = all(bool(np.all(np.isfinite(d))) for d in A.data)
+            recs.append(tok(scaling=bad, scalero=ro, finite=1 if finite else 0, model=kind, flux=str(P["flux"]), recon=P["recon"], n=P["n"],
+                            integrator=cls, bcl=P["bcL"]["type"], bcr=P["bcR"]["type"], units=[repr(x) for x in sc]))
+        except Exception as ex:
+            recs.append(O.raised_record(ex, model=kind, flux=str(P["flux"]), recon=P["recon"], n=P["n"], integrator=cls))
     return recs
